@@ -12,6 +12,7 @@ remainder parked), the frames are, in order, a subsequence of [metadata known wh
 name), then the metrics received afterwards]; a client whose socket accepted everything offered got *all* of them; frames are only
 discarded whole, and only when the client's queue would exceed the buffer. Book-keeping: after every batch, client_count equals the
 number of connected clients and should_send is true iff there is one."""
+import re
 import z3
 from common import *
 import _e3
@@ -235,11 +236,26 @@ def run_loop(e3, sc, budget=2):
          r"^<KeyName as Clone>::clone$|^<Key as Clone>::clone$": lambda eng, ctx, f, path, args, dty: ld(eng, ctx, args[0]),
          r"Level as PartialOrd>::le$": lambda *a: z3.BoolVal(False)}
     m.update(models.BASE)
+    if getattr(sc, "wake", 0):
+        wake_overrides(P, m, sc, ld)
     eng = sym.Engine(P, models=m, opaque=TRACING, loop_bound=8 * (len(sc.batches) + 2), max_paths=6000)
     eng.merging = False
     b = P.find_fn("run_transport")
     ctx0 = sym.Ctx(eng, 1)
     ctx0.statics = {"state": Agg({0: bv(0), 1: z3.BoolVal(False), 2: Opaque("waker"), 3: Opaque("tx")}), "batch": 0}
+    if getattr(sc, "wake", 0):
+        # the shared State comes from its real constructor (a changed tree may have more fields)
+        new_b = P.find("State", "new")
+        ctx0.statics.update({"env_pending": sc.wake, "wake_flag": False, "rxq": (), "npolls": 0, "in_env": False, "nsent": 0})
+
+        def script0():
+            st = yield ("call", new_b, [Opaque("waker"), Opaque("tx")])
+            yield ("setstatic", "state", st)
+            return None
+        pre = eng.run_script(1, sc.name + ":State::new", script0, ctx0=ctx0)
+        if len(pre) != 1 or pre[0].status != "done":
+            raise sym.Unsupported("State::new does not return")
+        ctx0 = pre[0].ctx
     bs = Enum(1, {1: Agg({0: bv(sc.buffer_size)})}, "Option") if sc.buffer_size is not None else Enum(0, {}, "Option")
 
     def script():
@@ -248,6 +264,116 @@ def run_loop(e3, sc, budget=2):
     leaves = eng.run_script(1, sc.name, script, ctx0=ctx0)
     e3.absorb(eng)
     return eng, leaves, frames, flen, base
+
+
+def wake_overrides(P, m, sc, ld):
+    """The wake-up protocol between emitting threads and the transport thread, as interference: `sc.wake` calls of State::register_metric
+    (try_send + wake, executed as real code) by other threads may land before any channel read, any atomic operation and any poll of the
+    transport thread (solver-chosen). mio by its documentation: Waker::wake makes the next (or current) poll return a WAKER event; a poll
+    with no pending wake blocks. The run ends when the transport blocks with no emitter left; nothing may then be left in the channel."""
+    reg_b = P.find("State", "register_metric")
+    nfresh = [0]
+
+    def env_do(c):
+        yield ("effect", lambda c_: (c_.statics.__setitem__("env_pending", c_.statics["env_pending"] - 1), c_.statics.__setitem__("in_env", True)))
+        yield ("callv", reg_b, [Ptr(("static", "state")), Native("aname", 7), Enum(0, {}, "MetricType"), Enum(0, {}, "Option"), Native("adesc", 1)])
+        yield ("effect", lambda c_: c_.statics.__setitem__("in_env", False))
+
+    def env_step(eng, c, where):
+        can = yield ("effect", lambda c_: c_.statics.get("env_pending", 0) > 0 and not c_.statics.get("in_env"))
+        if can:
+            nfresh[0] += 1
+            v = yield ("effect", lambda c_: eng.fresh(f"another_thread_emits_before_{where}", "bool"))
+            go = yield ("branch", v)
+            if go:
+                yield from env_do(c)
+
+    def wrap(orig, where):
+        def h(eng, ctx, f, path, args, dty):
+            def script(c):
+                yield from env_step(eng, c, where)
+                return orig(eng, c, f, path, args, dty)
+            return Script(script)
+        return h
+
+    def m_try_send(eng, ctx, f, path, args, dty):
+        n = ctx.statics.get("nsent", 0)
+        ctx.statics["nsent"] = n + 1
+        ctx.statics["rxq"] = tuple(ctx.statics.get("rxq", ())) + (("meta", 7, 0, None, 1 + n),)
+        return Enum(0, {0: Agg({0: UNIT})}, "Result")
+
+    def m_wake(eng, ctx, f, path, args, dty):
+        ctx.statics["wake_flag"] = True
+        return Enum(0, {0: Agg({0: UNIT})}, "Result")
+
+    def m_poll_w(eng, ctx, f, path, args, dty):
+        def script(c):
+            yield from env_step(eng, c, "poll")
+            st = yield ("effect", lambda c_: (c_.statics["wake_flag"], c_.statics.get("env_pending", 0)))
+            if not st[0] and st[1] > 0:
+                # the transport would block; the emitting thread still has a call to make and makes it now
+                yield from env_do(c)
+            flag = yield ("effect", lambda c_: c_.statics["wake_flag"])
+            if not flag:
+                yield ("observe", "blocked", {"left_in_channel": None})
+                left = yield ("effect", lambda c_: len(c_.statics.get("rxq", ())))
+                yield ("observe", "blocked_with", {"left": left})
+                return Diverge("cut", "the transport thread blocks in poll and no emitter is left")
+            k = yield ("effect", lambda c_: c_.statics.get("npolls", 0))
+            if k >= 4:
+                return Diverge("unwound", "more polls than the bound")
+            yield ("effect", lambda c_: (c_.statics.__setitem__("wake_flag", False), c_.statics.__setitem__("npolls", k + 1),
+                                         eng.store_ptr(c_, args[1], Native("events", (Native("event", ("waker", ())),)))))
+            return Enum(0, {0: Agg({0: UNIT})}, "Result")
+        return Script(script)
+
+    def m_token_w(eng, ctx, f, path, args, dty):
+        return Agg({0: bv(WAKER)})
+    m[r"Receiver::try_recv$"] = wrap(m[r"Receiver::try_recv$"], "try_recv")
+    m[r"Sender::try_send$"] = m_try_send
+    m[r"Waker::wake$"] = m_wake
+    m[r"^mio::Poll::poll$|^Poll::poll$"] = m_poll_w
+    m[r"^mio::event::Event::token$|event::Event::token$"] = m_token_w
+    for pat in list(models.BASE):
+        if "Atomic" in pat and pat not in m:
+            pass
+    # an emitter may also run between the transport's atomic operations on the shared State
+    for pat, h in list(models.BASE.items()):
+        if re.search(r"Atomic|atomic", pat) and "new" not in pat:
+            m[pat] = wrap(h, "an_atomic_step")
+
+
+def analyse_wake(e3, sc):
+    eng, leaves, frames, flen, base = run_loop(e3, sc)
+    cut = [l for l in leaves if l.status == "cut"]
+    other = z3.Or(*[l.taken() for l in leaves if l.status != "cut"] or [z3.BoolVal(False)])
+    lost = []
+    for l in cut:
+        for lab, e, pl in l.obs:
+            if lab == "blocked_with":
+                lost.append(z3.And(l.taken(), e.guard, z3.BoolVal(pl["left"] > 0)))
+    def on_model(ob, model):
+        import replay_e3
+        where = sorted(str(d) for d in model.decls() if d.arity() == 0 and z3.is_true(model[d]))
+        ob.sample = {"emissions_land": where}
+        os.makedirs(os.path.join(REPLAYS, "C11"), exist_ok=True)
+        pp = os.path.join(REPLAYS, "C11", f"{sc.name}.no_lost_wakeup.plan")
+        open(pp, "w").write(replay_e3.plan_text("c11_wake", "no_lost_wakeup", {}, [], {}))
+        status, out = replay_e3.run("c11", pp)
+        ob.detail += f" | native replay (c11: the transport thread parked at its p-th trace event, a second description emitted, then quiet): {status}"
+        ob.sample["native_replay"] = {"status": status, "output": out[-700:]}
+        ob.replay = pp
+        ob.reproduced = status == "reproduced"
+        if not ob.reproduced:
+            ob.status = "error"
+            ob.detail += " — counterexample did NOT reproduce natively: treated as an encoder/model problem, not reported as a violation"
+    bounds = (f"run_transport from its entry with no clients; {sc.wake} State::register_metric call(s) of other threads (real code: try_send, then wake) landing before any channel read, "
+              f"atomic step or poll of the transport thread (solver-chosen); <= 4 polls; {len(cut)} runs end with the transport blocked")
+    specs = [dict(name=f"{sc.name}:witness", desc="a run in which the transport drains the channel and blocks exists", bounds=bounds, cons=base + [z3.Or(*[l.taken() for l in cut] or [z3.BoolVal(False)])], expect_unsat=False),
+             dict(name=f"{sc.name}:returns", desc="run_transport panics, returns or exceeds the bound", bounds=bounds, cons=base + [other], expect_unsat=True),
+             dict(name=f"{sc.name}:no_lost_wakeup", desc="the transport thread blocks in poll while an event that another thread has sent (and whose wake() call has returned) is still in the channel: "
+                  "it stays undelivered until somebody emits again", bounds=bounds, cons=base + [z3.Or(*lost or [z3.BoolVal(False)])], expect_unsat=True, on_model=on_model)]
+    check.discharge_many(e3.res, specs, 120)
 
 
 def analyse(e3, sc):
@@ -382,6 +508,9 @@ def analyse(e3, sc):
 M1 = ("meta", 1, 0, 3, 10)
 M1b = ("meta", 1, 0, 4, 11)
 M2 = ("meta", 2, 1, None, 12)
+WAKE = Loop("c11_wake_protocol", 4, [], {}, "emitters racing the transport thread's drain-and-sleep cycle")
+WAKE.wake = 2
+
 LOOPS = [
     Loop("c11_loop_two_clients_one_leaves", 4, [[("waker", [M1])], [("listener", 2)], [("waker", [("metric", 1, 0)])], [("waker", [("metric", 1, 1)])], [("client", 0), ("client", 1)], [("waker", [("metric", 2, 2)])]],
          {0: "sym+close", 1: "fast"}, "two clients; one may stall or close at any write; the other keeps reading"),
